@@ -1,10 +1,11 @@
 import Rivaas.Proto
 import Rivaas.Spec.Obs
 import Rivaas.Model.ObsApp
+import Rivaas.Model.Radix
 /-
 Driver for C08. Case lines (DESIGN.md §2.9):
 
-  <id> R <facts> <prog> <patterns> => <log> <status> <size> <recd>
+  <id> R <facts> <prog> <patterns> <method> <k> (method version pattern intParam)^k => <log> <status> <size> <recd>
       one request through a router with the counting recorder
   <id> AW <n> (<facts> <prog> <method>)^n <patterns> => <spansStarted> <spansEnded> <active> <requests_total> <served>
       the same through a real HTTP server; some clients abort while the handler runs (quiescence only)
@@ -84,12 +85,43 @@ def encOut (o : Out) : String :=
 /-- what the model expects the end callback's writer to report -/
 def modelRecd (f : Facts) (o : Out) : Option (Nat × Nat) := if f.obs && f.live then some (o.status, o.size) else none
 
+/-! the main-tree lookup recomputed with the routing model (Model/Radix) -/
+
+structure RouteReg where
+  method : Bytes
+  ver : Bytes
+  pattern : Bytes
+  intParam : Bytes
+
+def isDigits (v : Bytes) : Bool := v != [] && v.all fun c => '0' ≤ c && c ≤ '9'
+
+def treeFor (routes : List RouteReg) (method ver : Bytes) : Rivaas.Radix.Tree :=
+  let rec go (t : Rivaas.Radix.Tree) (i : Nat) : List RouteReg → Rivaas.Radix.Tree
+    | [] => t
+    | r :: rest =>
+      if r.method == method && r.ver == ver then
+        go (Rivaas.Radix.addRoute t r.pattern i (if r.intParam == [] then [] else [(r.intParam, 1)])) (i + 1) rest
+      else go t (i + 1) rest
+  go Rivaas.Radix.Tree.empty 0 routes
+
+/-- the fact `tree.getRoute(path, c)` agrees with the routing model: a predicted hit is a hit on a route with that
+    pattern; when the request reaches the tree traversal (no earlier lookup answered) a predicted miss is a miss -/
+def treeFactAgrees (f : Facts) (method : Bytes) (routes : List RouteReg) : Bool :=
+  let leaf := (Rivaas.Radix.getRoute (fun _ v => isDigits v) (treeFor routes method []) f.path Rivaas.Radix.Ctx.fresh).1
+  match f.treeRoute with
+  | some rt => (leaf.map (·.path)) == some rt.pattern
+  | none => !(f.tree && f.q1.isNone && f.q2.isNone && f.q3.isNone) || leaf.isNone
+
 def stepR (id : String) (inp obs : List String) : String :=
   if obs == ["P"] then verdict id false false "-" "a-panic-escaped-ServeHTTP" else
-  match runP (do let f ← pFacts; let p ← pProg; let pats ← list str; pure (f, p, pats)) inp, runP pSeen obs with
-  | some (f, p, pats), some seen =>
+  match runP (do
+      let f ← pFacts; let p ← pProg; let pats ← list str; let method ← str
+      let routes ← list (do let m ← str; let v ← str; let pt ← str; let ip ← str; pure (⟨m, v, pt, ip⟩ : RouteReg))
+      pure (f, p, pats, method, routes)) inp, runP pSeen obs with
+  | some (f, p, pats, method, routes), some seen =>
     let m := serve f p
-    let mi := m.log == seen.log && m.status == seen.status && m.size == seen.size && modelRecd f m == seen.recd
+    let mi := m.log == seen.log && m.status == seen.status && m.size == seen.size && modelRecd f m == seen.recd &&
+      treeFactAgrees f method routes
     let s := specOK f.obs f.live pats seen
     verdict id mi s "-" (encOut m)
   | _, _ => s!"{id} bad-case"
